@@ -1,0 +1,20 @@
+//go:build verif
+
+// Contracts for package astra, read by the /verif VC generator (vcgo); only compiled with -tags verif.
+
+package astra
+
+// Bundle loading as seen from proxy.Run: reads files / the network, builds fresh objects, does not
+// touch the caller's configuration. (Their own behaviour is the subject of C19.)
+//@ func astra.LoadBundleZipFromPath
+//@   trusted
+//@   modifies nothing
+
+//@ func astra.LoadBundleZipFromURL
+//@   trusted
+//@   modifies nothing
+
+//@ func astra.NewResolver
+//@   trusted
+//@   ensures result != nil
+//@   modifies nothing
